@@ -73,7 +73,7 @@ func (s *Seq) opAwait(op *Op) {
 	default:
 		return
 	}
-	s.W.Sleep(d)
+	s.sleep(d)
 	// a flusher may be in the middle of a flush / commit at this very instant: let it
 	// finish (no simulated time passes) before looking at the disk
 	s.W.Settle()
